@@ -9,4 +9,5 @@ def main : IO UInt32 :=
     | "c03" => C03.checkEng params lines
     | "c03burst" => C03.checkEng params lines
     | "c03two" => C03.checkEng params lines
+    | "c01patient" => C03.checkEng params lines
     | _ => { bad := [s!"unknown family {family}"] })
